@@ -175,7 +175,7 @@ def _count_cases(tier):
     return out
 
 
-@contract("metamodule_roundtrip", ["C15", "C02", "C01"], targets=_T, cases=_count_cases)
+@contract("metamodule_roundtrip", ["C15", "C02", "C01", "C03", "C05"], targets=_T, cases=_count_cases)
 def metamodule_roundtrip(H, case):
     """MetaModule with n exposed user controllers in either context: after save + load the count, the
     exposure of exactly the first n, every mapping slot, every label, every stored user-controller
@@ -206,6 +206,20 @@ def metamodule_roundtrip(H, case):
     H.check("file_has_5_plus_n_controller_values", ids.count(b"CVAL") == 5 + n)
     cm = [c[1] for c in sect if bytes(c[0]) == b"CMID"]
     H.check("file_has_8_binding_bytes_per_value", len(cm) == 1 and len(cm[0]) == 8 * (5 + n))
+    # documented offset convention for the user-defined controllers' stored values (C03)
+    cvals = [c[1] for c in sect if bytes(c[0]) == b"CVAL"]
+    for i in range(n):
+        ud = m.user_defined[i]
+        t = ud.value_type
+        v = m.controller_values[ud.name]
+        if isinstance(t, Range):
+            want = v - t.min if t.min < 0 else v
+        elif t is bool:
+            want = H.ite(v, 1, 0)
+        else:
+            want = getattr(v, "value", v)
+        if 5 + i < len(cvals):
+            H.check(f"CVAL[user_defined_{i + 1}].documented_stored_value", F.dec_i32(cvals[5 + i]) == want)
     chnk = [F.dec_u32(c[1]) for c in sect if bytes(c[0]) == b"CHNK"]
     H.check("chnk_above_every_chunk_number", len(chnk) == 1 and all(F.dec_u32(c[1]) < chnk[0] for c in sect if bytes(c[0]) == b"CHNM"))
     check_metamodule(H, m, q, n)
